@@ -23,8 +23,9 @@ LAST = {}
 
 SIZES = {
     # schedules per seed block, events per schedule, seed blocks
-    "quick": dict(n=24, events=700, blocks=2),
-    "thorough": dict(n=40, events=2500, blocks=12),
+    # cp: base schedules whose every step/ready event is followed by a crash + restart of that node
+    "quick": dict(n=24, events=700, blocks=2, cp=1, cp_events=120),
+    "thorough": dict(n=40, events=2500, blocks=12, cp=8, cp_events=400),
 }
 
 
@@ -89,15 +90,19 @@ def run_acceptor(ctx, tier=None, storage="mem", profile=""):
     rejected, skipped = [], []
     tot = {}
     gen_s = 0.0
-    for b in range(sz["blocks"]):
-        seed = ctx.seed * 1000 + b
-        path = os.path.join(d, "traces-%d.txt" % b)
-        rc, out, dt = sh("%s -seed %d -n %d -events %d -storage %s %s -out %s" % (
-            os.path.join(vlib.BIN, "raftabs"), seed, sz["n"], sz["events"], storage,
+    jobs = [("-seed %d -n %d -events %d" % (ctx.seed * 1000 + b, sz["n"], sz["events"]), "traces-%d.txt" % b)
+            for b in range(sz["blocks"])]
+    if sz.get("cp"):
+        jobs.append(("-crashpoints -seed %d -n %d -events %d" % (ctx.seed * 1000 + 999, sz["cp"], sz["cp_events"]), "crashpoints.txt"))
+    for args, fn in jobs:
+        seed = args
+        path = os.path.join(d, fn)
+        rc, out, dt = sh("%s %s -storage %s %s -out %s" % (
+            os.path.join(vlib.BIN, "raftabs"), args, storage,
             ("-profile " + profile) if profile else "", path), timeout=1800)
         gen_s += dt
         if rc != 0:
-            rejected.append(dict(trace="seed %d" % seed, seq=-1, event="generate", why="raftabs failed: " + out[-500:]))
+            rejected.append(dict(trace=str(seed), seq=-1, event="generate", why="raftabs failed: " + out[-500:]))
             continue
         summary, rej, skp = run_traces(path)
         n_traces += summary.get("traces", 0)
